@@ -399,6 +399,21 @@ class Lin:
 
 
 NONE = ('none',)
+SEEK_END = ('seek_end',)
+
+
+def seek_position(args, size: 'Lin', call, where: str):
+    """(absolute position, offset-from-the-end or None) of `fh.seek(*args)` over
+    linear forms; any other argument shape is an unknown idiom."""
+    if len(args) == 1 and isinstance(args[0], Lin):
+        return args[0], None
+    if len(args) == 2 and isinstance(args[0], Lin):
+        off, wh = args
+        if wh == SEEK_END or wh == Lin.const(2):
+            return size + off, off
+        if wh == Lin.const(0):
+            return off, None
+    raise UnknownIdiom('%s: seek arguments %s' % (where, short(call)))
 
 
 class LinPath:
@@ -460,10 +475,12 @@ class LinExec:
 
     MAX_PATHS = 512
 
-    def __init__(self, project: Project, func: Func, cfg: CFG, opaque_params=()):
+    def __init__(self, project: Project, func: Func, cfg: CFG, opaque_params=(), file_sizes=None):
         self.p = project
         self.func = func
         self.cfg = cfg
+        # opaque parameter that is a seekable file -> linear form of its size
+        self.file_sizes: Dict[str, Lin] = dict(file_sizes or {})
         self.minmax: Dict[str, Tuple[str, List[Lin]]] = {}
         self.paths: List[LinPath] = []
         self.opaque_params = set(opaque_params)
@@ -669,7 +686,9 @@ class LinExec:
                 return path.attrs[d]
             q = self.p.resolve_expr(self.func.module, e, self.func)
             if q in ('os.SEEK_END', 'io.SEEK_END'):
-                return ('seek_end',)
+                return SEEK_END
+            if q in ('os.SEEK_SET', 'io.SEEK_SET'):
+                return Lin.const(0)
             base = e
             while isinstance(base, ast.Attribute):
                 base = base.value
@@ -697,8 +716,19 @@ class LinExec:
         if isinstance(f, ast.Name) and f.id in ('min', 'max') and f.id not in path.env and not c.keywords and len(c.args) >= 2:
             args = [self.eval(a, path) for a in c.args]
             if all(isinstance(a, Lin) for a in args):
-                name = '%s(%s)' % (f.id, ','.join(sorted(a.key() for a in args)))
-                self.minmax[name] = (f.id, args)
+                # max(max(a, b), b) == max(a, b): splice nested atoms of the same
+                # kind and drop duplicates, so a re-applied clamp is the same atom
+                flat: List[Lin] = []
+                for a in args:
+                    at = a.single_atom()
+                    inner = self.minmax[at][1] if at in self.minmax and self.minmax[at][0] == f.id else [a]
+                    for x in inner:
+                        if x not in flat:
+                            flat.append(x)
+                if len(flat) == 1:
+                    return flat[0]
+                name = '%s(%s)' % (f.id, ','.join(sorted(a.key() for a in flat)))
+                self.minmax[name] = (f.id, flat)
                 return Lin.atom(name)
             return ('opaque', short(c))
         if isinstance(f, ast.Name) and f.id == 'len' and len(c.args) == 1 and isinstance(c.args[0], ast.Name):
@@ -710,6 +740,15 @@ class LinExec:
             recv = self.eval(f.value, path)
             args = [self.eval(a, path) for a in c.args]
             path.events.append(('call', dotted(f.value) or short(f.value), f.attr, args, c, recv))
+            if f.attr == 'seek' and isinstance(recv, tuple) and recv[:1] == ('obj',) and recv[1] in self.file_sizes:
+                # io: seek() returns the new absolute position.  That equals
+                # offset (+ size for SEEK_END) only when the seek neither raises
+                # nor clamps - the caller of LinExec owes that obligation
+                # (seek_position / C16 R3 "relative seek stays inside the file").
+                if c.keywords or any(isinstance(a, ast.Starred) for a in c.args):
+                    raise UnknownIdiom('%s: seek call shape %s' % (self.func.qual, short(c)))
+                pos, _off = seek_position(args, self.file_sizes[recv[1]], c, self.func.qual)
+                return pos
             return ('result', dotted(f) or short(f), args, c)
         return ('opaque', short(c))
 
